@@ -12,6 +12,7 @@ from __future__ import annotations
 
 import copy
 import json
+import math
 import struct
 from array import array
 from collections.abc import Sequence
@@ -64,7 +65,9 @@ RULE = ("knapsack: <=12 items (thorough <=16), values/weights/capacity integers 
         "one object); histories of 2-4 consecutive calls in one process on related inputs (same objects with changed "
         "capacity, minimize/maximize, each heuristic after another, same input twice, changed content, knapsack / "
         "fallback / bin packing interleaved on one list); a few large instances (40-120 items / 100-400 items, many "
-        "ties). Non-trivial = at least one item rejected "
+        "ties); numeric edges (positive weights 1e-6..1e-15 and 2^-30..2^-50 next to on-grid weights, capacity an exact "
+        "fill plus 0..2 grid units / the total / the total minus a tiny weight / one ulp off, values near 2^53, zero values; "
+        "sizes equal to the capacity, half of it and one ulp around, tiny, near 2^53). Non-trivial = at least one item rejected "
         "by capacity (knapsack: the items do not all fit but one does; packing: >=2 bins opened with >=3 items); "
         "distinct by canonical case")
 
@@ -74,10 +77,14 @@ RULE = ("knapsack: <=12 items (thorough <=16), values/weights/capacity integers 
 # ---------------------------------------------------------------------------
 
 def pyval(x):
-    k, d, f = x
-    if d == 1:
-        return float(k) if f else k
-    return k / d
+    """[k, d, f] = k/d (int k when d = 1 and not f); an optional 4th entry moves the double by that many ulps"""
+    k, d, f = x[:3]
+    v = (float(k) if f else k) if d == 1 else k / d
+    if len(x) > 3 and x[3]:
+        v = float(v)
+        for _ in range(abs(x[3])):
+            v = math.nextafter(v, math.inf if x[3] > 0 else -math.inf)
+    return v
 
 
 def dec(x) -> Fraction:
@@ -93,7 +100,7 @@ def frac(x) -> Fraction:
 
 def exact(x) -> bool:
     """the double is the decimal (integers, k/4, 5/10 ...) and small enough for exact float sums"""
-    return frac(x) == dec(x) and abs(x[0]) < 2**40 and (frac(x).denominator & (frac(x).denominator - 1)) == 0 \
+    return len(x) < 4 and frac(x) == dec(x) and abs(x[0]) < 2**40 and (frac(x).denominator & (frac(x).denominator - 1)) == 0 \
         and frac(x).denominator <= 1024
 
 
@@ -408,6 +415,65 @@ def gen_pack_adversarial(rng, big: bool):
     return _from_bins(rng, bins, C, shuffle=rng.random() < 0.7)
 
 
+# the first six are far enough below the 1/1000 grid to scale to 0 within the 1e-9 "exact" tolerance
+TINY = [[1, 10**12], [1, 10**13], [5, 10**14], [1, 10**15], [1, 2**40], [1, 2**50], [1, 10**18], [1, 2**60],
+        [1, 10**6], [1, 10**9], [3, 10**12], [1, 2**30], [3, 2**41]]
+
+
+def gen_knap_edge(rng, big: bool):
+    """numeric edges of the scaling grid: positive weights far below 1/1000 next to on-grid weights, capacity an
+    exact fill plus 0..2 grid units, the total weight, the total minus a tiny weight, one ulp off; huge values; zeros"""
+    g = rng.choice([1000, 1000, 100, 10])
+    n_grid = rng.randint(1, 5)
+    wk = [rng.randint(1, 3 * g) for _ in range(n_grid)]
+    wts = [[k, g, False] for k in wk]
+    tiny = [list(rng.choice(TINY[:8] if rng.random() < 0.7 else TINY)) + [False] for _ in range(rng.choice([1, 2, 2, 3, 4]))]
+    wts += tiny
+    vals = [num(rng, rng.choice([1, 1, 4, 10]), 0, 20) for _ in range(n_grid)] + \
+           [[rng.randint(0 if rng.random() < 0.2 else 1, 3), 1, False] for _ in tiny]
+    mode = rng.choice([0, 0, 0, 1, 1, 2, 3, 4, 5])
+    sub = [k for k in wk if rng.random() < 0.6] or [wk[0]]
+    if mode <= 1:      # exact fill of some on-grid items plus 0..2 spare grid units (fewer than the tiny items)
+        cap = [sum(sub) + rng.randint(0, 2), g, False]
+    elif mode == 2:    # the total weight of everything
+        tot = sum((dec(w) for w in wts), Fraction(0))
+        cap = [tot.numerator, tot.denominator, False]
+    elif mode == 3:    # the total minus one tiny weight
+        tot = sum((dec(w) for w in wts), Fraction(0)) - dec(tiny[0])
+        cap = [tot.numerator, tot.denominator, False]
+    elif mode == 4:    # on the grid, one ulp off
+        cap = [sum(sub) + rng.randint(0, 1), g, False, rng.choice([-1, 1])]
+        i = rng.randrange(n_grid)
+        wts[i] = wts[i][:3] + [rng.choice([-1, 1])]
+    else:              # huge values (float sums lose the small ones), zero values
+        cap = [sum(sub) + 1, g, False]
+        # (huge Python ints are kept below 2^50 so that their exact int sum is still a double: the mirror sums doubles)
+        vals = [([2**53 - rng.randint(0, 3), 1, True] if rng.random() < 0.6 else [2**50 - rng.randint(0, 3), 1, False])
+                if rng.random() < 0.5 else [rng.randint(0, 2), 1, False] for _ in wts]
+    if rng.random() < 0.2:
+        vals[rng.randrange(len(vals))] = [0, 1, False]
+    order = list(range(len(wts)))
+    rng.shuffle(order)
+    return {"fn": "knapsack", "values": [vals[i] for i in order], "weights": [wts[i] for i in order],
+            "capacity": cap, "minimize": rng.random() < 0.1, "edge": True}
+
+
+def gen_pack_edge(rng, big: bool):
+    """sizes equal to the capacity, exactly half of it and one ulp around, tiny sizes, zero, near 2^53"""
+    k, d = rng.choice([(1, 1), (3, 10), (10, 1), (1, 1000), (2**53, 1), (7, 4), (100, 1)])
+    fl = rng.random() < 0.5
+    n = rng.randint(2, 10)
+    menu = [[k, d, fl], [k, 2 * d, fl], [k, 2 * d, fl, 1], [k, 2 * d, fl, -1], [k, 3 * d, fl], [0, 1, fl], [k, d, fl, -1]]
+    if (k, d) != (2**53, 1):
+        menu += [list(t) + [False] for t in TINY[:10] if Fraction(t[0], t[1]) <= Fraction(k, d)]
+        menu += [[k, 4 * d, fl], [k, 4 * d, fl, 1]]
+    else:
+        menu += [[2**52 + 1, 1, fl], [2**52 - 1, 1, fl], [1, 1, fl], [2**53 - 1, 1, fl]]
+    sizes = [list(rng.choice(menu)) for _ in range(n)]
+    algo, flags = _pick_algo(rng)
+    return {"fn": "binpack", "sizes": sizes, "capacity": [k, d, fl], "algorithm": algo, "flags": flags, "edge": True}
+
+
 def gen_history(rng, big: bool):
     """2-4 consecutive calls in ONE process on related inputs (equal recipes are the same Python objects)"""
     kind = rng.choice(["knap_capacity", "knap_minmax", "pack_heuristics", "pack_capacity", "same_twice",
@@ -519,6 +585,7 @@ def edge_cases():
     yield K([N(5), N(1), N(1)], [N(50000), N(1, 4), N(1, 4)], N(100001, 2))  # 0.25 scaled below 1 counts as 1
     yield K([N(1), N(1)], [N(1, 10), N(2, 10)], N(3, 10))
     yield K([N(3), N(3), N(3)], [N(2), N(2), N(2)], N(4))
+    yield K([N(10), N(15), N(1), N(1)], [N(1, 1, True), N(1499, 1000), N(1, 10**12), N(1, 10**12)], N(25, 10))
     P = lambda s, c, a: {"fn": "binpack", "sizes": s, "capacity": c, "algorithm": a,  # noqa: E731
                          "flags": [a is None or "b" in a.split("-")[0], a is None or "decreasing" in a]}
     for a in ("first-fit", "best-fit", "first-fit-decreasing", None):
@@ -702,6 +769,12 @@ def judge_knap(ctx, case, out, reply):
             ctx.count("present:values_is_weights_same_object")
     if len(case["values"]) > 20:
         ctx.count("large:knapsack")
+    if case.get("edge"):
+        ctx.count("edge:knapsack")
+        if any(0 < frac(x) < Fraction(1, 10**5) for x in case["weights"]):
+            ctx.count("edge:knapsack_weight_below_grid")
+        if any(len(x) > 3 for x in case["weights"] + [case["capacity"]]):
+            ctx.count("edge:knapsack_one_ulp_off")
     canon = ["k", case["values"], case["weights"], case["capacity"], case["minimize"]]
     if out[0] != "ok":
         kind = err_kind(out)
@@ -833,6 +906,8 @@ def judge_pack(ctx, case, out, reply):
         ctx.count("present:sizes:" + style_of(case, "sizes"))
     if n > 60:
         ctx.count("large:binpack")
+    if case.get("edge"):
+        ctx.count("edge:binpack")
     canon = ["p", case["sizes"], case["capacity"], case["algorithm"]]
     if out[0] != "ok":
         kind = err_kind(out)
@@ -1202,6 +1277,10 @@ def run(ctx, budget):
             cases.append(add_style(ctx.rng, gen_pack_adversarial(ctx.rng, big)))
         if i % 5 == 2:
             cases.append(gen_history(ctx.rng, big))
+        if i % 16 == 3:
+            cases.append(add_style(ctx.rng, gen_knap_edge(ctx.rng, big)))
+        if i % 24 == 5:
+            cases.append(add_style(ctx.rng, gen_pack_edge(ctx.rng, big)))
         if i % 60 == 7:
             cases.append(gen_large(ctx.rng, big))
         if i % 3 == 0 and knap_valid(k) and k["values"]:   # the helpers named in the property's anchors, directly
